@@ -226,8 +226,8 @@ Proof.
   - destruct x; try contradiction; exact H.
   - exact H.
   - cbn [normal] in *. destruct pe; [exact H | simpl in H; discriminate].
-  - cbn [normal] in *. apply andb_true_iff in H as [H1 H2]. rewrite (IHa H1). simpl.
-    destruct b; try (apply IHb; exact H2). discriminate.
+  - cbn [normal] in *. apply andb_true_iff in H as [H H3]. apply andb_true_iff in H as [H1 H2]. rewrite (IHa H1), H3. simpl.
+    rewrite andb_true_r. destruct b; try (apply IHb; exact H2). discriminate.
 Qed.
 
 Definition group_ok (a : bool) (g : list sel) : Prop := g <> [] /\ forallb (normal a) g = true.
@@ -259,8 +259,9 @@ Proof.
       apply bind_ok in H0 as [c [_ H0]]. destruct ((c =? 44)%N || (c =? 41)%N); [injection H0 as <- _; exact Hr|].
       match type of H0 with (let '(cb, j) := ?e in _) = _ => destruct e as [cb j0] end.
       destruct (comb_of cb) as [cm|]; [|injection H0 as <- _; exact Hr].
+      destruct (pseudo_element r) eqn:Epe; [|discriminate].
       apply bindP_ok in H0 as [c' [i1 [Hc H0]]]. apply IHq in Hc as [Hc1 Hc2].
-      eapply IHsl; [|exact H0]. unfold complex_ok. cbn [normal]. rewrite Hr. simpl.
+      eapply IHsl; [|exact H0]. unfold complex_ok. cbn [normal]. rewrite Hr, Epe. simpl. rewrite andb_true_r.
       destruct c'; try exact Hc1. contradiction.
     + (* p_seq *) intros a i x j H0. cbn [p_seq] in H0.
       destruct (length s <=? i); [discriminate|].
